@@ -2,17 +2,19 @@
 # seed_matrix.sh [ids...] : run every check against every seeded change on a scratch copy of /repo
 # (never touches /repo); writes seeded/<id>/detect.txt and seeded/MATRIX.md
 set -u
-MX=/tmp/mx; mkdir -p $MX
+ROOT=$(cd "$(dirname "$0")/.." && pwd)
+MX=${MXDIR:-/tmp/mx}; mkdir -p $MX
 [ -d $MX/repo ] || git -C /repo worktree add -q --detach $MX/repo HEAD
+git -C $MX/repo checkout -q -- . ; git -C $MX/repo checkout -q --detach $(git -C /repo rev-parse HEAD)
 export BPV_REPO=$MX/repo BPV_WORK=$MX/work BPV_EVID=$MX/evidence
 mkdir -p $BPV_WORK $BPV_EVID
-IDS="$@"; [ -z "$IDS" ] && IDS=$(ls /verif/seeded | grep -E '^C[0-9]+[a-z]')
+IDS="$@"; [ -z "$IDS" ] && IDS=$(ls $ROOT/seeded | grep -E '^C[0-9]+[a-z]')
 for id in $IDS; do
   cd $MX/repo && git checkout -q -- . && git clean -fdq src
-  P=/verif/seeded/$id/patch.diff
-  git apply $P 2>/dev/null || patch -p1 --no-backup-if-mismatch -s < $P || { echo "$id APPLY-FAILED" > /verif/seeded/$id/detect.txt; continue; }
-  OUT=$(cd /verif && ./bpv all 2>&1)
-  { echo "$OUT" | grep "^\[C" | awk '{print $1, $5}' ; echo "---"; echo "$OUT" | grep -A2 "^VIOLATION" | grep "rule=" | sort | uniq -c | sort -rn | head -40; } > /verif/seeded/$id/detect.txt
-  echo "$id: $(grep -v 'violations=0' /verif/seeded/$id/detect.txt | grep '^\[C' | tr -d '[]' | awk '{print $1}' | tr '\n' ' ')"
+  P=$ROOT/seeded/$id/patch.diff
+  git apply $P 2>/dev/null || patch -p1 --no-backup-if-mismatch -s < $P || { echo "$id APPLY-FAILED" > $ROOT/seeded/$id/detect.txt; continue; }
+  OUT=$(cd $ROOT && ./bpv all 2>&1)
+  { echo "$OUT" | grep "^\[C" | awk '{print $1, $5}' ; echo "---"; echo "$OUT" | grep -A2 "^VIOLATION" | grep "rule=" | sort | uniq -c | sort -rn | head -40; } > $ROOT/seeded/$id/detect.txt
+  echo "$id: $(grep -v 'violations=0' $ROOT/seeded/$id/detect.txt | grep '^\[C' | tr -d '[]' | awk '{print $1}' | tr '\n' ' ')"
 done
 cd $MX/repo && git checkout -q -- .
